@@ -76,6 +76,17 @@ CLAIMS = {
              '(finding C13-nocase-none)',
         technique='Lean 4 proof (TransCmp instances + core mergeSort lemmas) + correspondence',
         ref='DESIGN.md §5 C13'),
+    'C16': dict(
+        text='Lean 4 theorems (Mathlib ring/field_simp/linarith over Q) about the one-pass statistics model for ALL '
+             'lists: count_total_spec, none_ignored, mean_spec, variance_n_eq (sum x^2/n - mean^2 = population '
+             'variance), variance_eq (… n/(n-1) = sample variance), variance_nonneg, min_max_spec, median_spec '
+             '(odd: middle element of the sorted values; even: lo <= m <= hi, floor of the mean for ints, mean '
+             'otherwise); correspondence of the ten stat-x variables against exact rationals; oracle = statistics/'
+             'fractions from the standard library',
+        note='Trusted: Lean kernel + Mathlib lemmas; floats enter as the rationals they denote, rounding and '
+             'math.sqrt are runtime (partial): compared within a relative tolerance; string statistics oracle-only',
+        technique='Lean 4 proof over Q (Mathlib tactics) + correspondence through exact fractions',
+        ref='DESIGN.md §5 C16'),
 }
 
 NA_REASON = 'check not built yet in this round (planned, see DESIGN.md §5)'
